@@ -124,12 +124,17 @@ _c("C17",
    "argsort/shuffle/choice/uniform results are oracle inputs validated against what the call can return and replayed on a second generator (crafted MT19937 states give u = 0, 2^-53, 1-2^-53). Binary64 residual: the floor/ceil clause is proved over exact scalars; "
    "an interior pointer within one rounding unit of a cumulative boundary is covered by correspondence + per-run Spec only. axis_shuffle is modelled in gather form (tied to the in-place slice loop by correspondence). D7a/b/c fixed in /repo (pre-repair counterexamples kept).")
 _c("C16",
-   "18 theorems (Props/C16.lean): an HDF5 file as a finite map path -> dataset; for ANY sequence of overwriting to_hdf5 calls of any of the 8 classes to prefix-free groups, from_hdf5 at a location returns exactly the object written there last "
-   "(poorer-over-richer included) and other groups do not interfere; overwrite=False refuses and leaves the file unchanged; group strings matter only through their normalised path; shallow and deep copies equal the source, deep copies share no buffer and "
-   "any in-place writes to one side never show in the other; VCF import reproduces names, coordinates and every phased call in (phase, taxon, variant) order (grouped: a permutation in (chromosome, position) order, labels and calls travel together); "
-   "breeding-value and genetic-map frames round-trip with matching options (same unit on both sides).",
-   "h5py / pandas / CSV text / cyvcf2 entered through 'a dataset (column, record field) read equals the one written'; from_numpy re-standardisation is C15's; coancestry/variance/extended-map frame layouts are Spec-only (no Lean model). "
-   "D8 and D29 fixed in /repo (pre-repair counterexamples kept).")
+   "44 theorems (Props/C16.lean): an HDF5 file as a finite map path -> dataset (a group made on purpose = a marker entry); for ANY sequence of overwriting to_hdf5 calls of ANY persistable class "
+   "(the 11 classes of the property incl. the parameter-free TruePhenotyping, the 7 base classes of core.mat, the (n,n,t,t) covariance matrices) whose datasets / group markers are prefix-free, "
+   "from_hdf5 at a location - by path and by group NAME in any spelling - returns exactly the object written there last (poorer-over-richer included), other groups do not interfere and a group made on purpose persists "
+   "(hdf5_last_write_wins, hdf5_named_group_roundtrip, tp_hdf5_roundtrip: all full); overwrite=False refuses and leaves the file unchanged; group strings matter only through their normalised path; "
+   "shallow and deep copies equal the source, deep copies share no cell (flat model and copy.deepcopy on object graphs with memo / nested instances), shallow copies share exactly the arrays inside dictionaries; "
+   "VCF import reproduces names, coordinates, identifiers and every phased call in (phase, taxon, variant) order (grouped: a permutation, labels and calls travel together); "
+   "every data-frame layout (breeding values wide, coancestry wide, variance long for any number of parental axes, both genetic maps with matching units, model dictionaries) round-trips with matching options, CSV through an abstract lawful dialect; "
+   "Spec oracles: spec_obj_iff, hdf5_/copy_/vcf_spec_sound.",
+   "h5py / pandas / CSV cell printing+parsing / cyvcf2 / scipy interp1d entered through 'a dataset (column, record field) read equals the one written'; from_numpy re-standardisation is C15's; "
+   "interpolation splines of genetic maps are compared by behaviour (Spec only); implicit HDF5 groups are not tracked (they never become empty in a history of complete writes). "
+   "No _partial theorem and no open finding. D8, D29, D30 fixed in /repo (pre-repair counterexamples kept: stale_field_, str_hyperparam_, tp_named_group_prerepair_counterexample).")
 _c("C03",
    "23 theorems (Props/C03.lean) about a generic label-bundle model (3-level array + taxa/vrnt/trait label bundles + group metadata + class schema): every numpy primitive used commutes with map, so data and each label array move by ONE index list; "
    "for every history of select/delete/remove/reorder/sort/group/ungroup/adjoin/append/insert/incorp/concat (any index form, any length) every labelled cell of the result is a labelled cell of the initial state or of an operand block; "
